@@ -74,6 +74,8 @@ func checkC16(w *World, r *Report) {
 	r.Rule("H3", 10, "on failure exactly the matching handler (scope error / resolution error) runs and the method is not called")
 	r.Rule("H4", 5, "the controller method is called once, only after both steps succeeded, with the resolved controller")
 	r.Rule("S1", 10, "sibling agreement: the five integrations produce the same verdict vector")
+	r.Rule("PS", 15, "no state outside the request: the integration packages declare no package-level variables and every ScopeMiddleware/Handle call builds its configuration from a fresh literal")
+	ruleNoPackageState(w, r, "PS")
 	r.Rule("ISO", 5, "requests share no mutable resolution state: cached analysis records and invokers are written only while under construction (record-confinement part of R09.1)")
 
 	for _, m := range integrations {
